@@ -149,3 +149,31 @@ void drv_c18_misc(int tier, unsigned long seed, const char *extra) {
   }
   priv_begin(); mpz_clear(v); mpz_clear(w); mpq_clear(q); mpq_clear(q2); mpf_clear(fv); priv_end();
 }
+/* %F conversions against the manual's rule: the text denotes the operand to within one unit of the last generated digit.  Integer-valued
+   floats 2^k - 1 of up to 45 limbs held exactly (every digit is significant), random mantissas at exponents from far below to far above
+   the point, destination-independent precisions; fixed, scientific and general style, default / zero / small / large precision */
+void drv_c18_float(int tier, unsigned long seed, const char *extra) {
+  shard_t sh = shard_parse(extra); long x = 0; int li, vi, fi;
+  static const int limbs[] = {1, 2, 3, 7, 8, 9, 12, 20, 40, 45};
+  static const char *fmts[] = {"%.0Ff", "%Ff", "%.3Ff", "%.25Ff", "%.0Fe", "%Fe", "%.20Fe", "%.60Fe", "%Fg", "%.10Fg", "%.40Fg", "%+.2Ff", "%30.1Ff"};
+  for (li = 0; li < (sh.pure ? 2 : 10); li++) for (vi = 0; vi < 6; vi++) {
+    mpf_t f; char g[6000]; int L = limbs[li], ret;
+    x++; if (!MINE(sh, x)) continue;
+    rec_reset("c18_float", x, seed);
+    priv_begin(); mpf_init2(f, (unsigned long)64 * L);
+    switch (vi) {
+    case 0: mpf_set_ui(f, 1); mpf_mul_2exp(f, f, (unsigned long)64 * L); mpf_sub_ui(f, f, 1); break;                          /* 2^(64 L) - 1: an integer using every bit */
+    case 1: mpf_set_ui(f, 1); mpf_mul_2exp(f, f, (unsigned long)64 * L - 1 - rnd_below(40)); mpf_sub_ui(f, f, 1); mpf_neg(f, f); break;
+    case 2: mpf_set_ui(f, 1); mpf_div_ui(f, f, 3); mpf_mul_2exp(f, f, (unsigned long)rnd_below(64 * L)); break;                 /* a fraction part and an integer part */
+    case 3: mpf_set_ui(f, 7); mpf_div_ui(f, f, 9); mpf_div_2exp(f, f, (unsigned long)rnd_below(300)); break;                    /* below one, leading zeros */
+    case 4: mpf_set_ui(f, 999999999); mpf_div_ui(f, f, 1000000000); mpf_mul_2exp(f, f, (unsigned long)rnd_below(30)); break;   /* digits that round up across the point */
+    default: { mp_limb_t m[48]; int n = 1 + (int)rnd_below(L); rnd_limbs(m, n, (int)rnd_below(NKINDS)); if (!m[n - 1]) m[n - 1] = 1; MPN_COPY(PTR(f), m, n); SIZ(f) = (rnd64() & 1) ? n : -n; EXP(f) = (long)rnd_below(2 * L + 2) - 2; } }
+    priv_end();
+    for (fi = 0; fi < 13; fi++) { char *h = hex_of_limbs(PTR(f), ABSIZ(f), SIZ(f) < 0);
+      if (ABSIZ(f) && EXP(f) > 60 && (fi == 3 || fi == 12)) { free(h); continue; }
+      fn_begin("gmp_printf_f"); fn_in_str("fmt", fmts[fi]); fn_in_str("mant", h); fn_in_int("exp", (long)EXP(f)); fn_in_int("sz", (long)SIZ(f)); fn_in_int("prec", (long)PREC(f)); fn_mid();
+      priv_begin(); ret = gmp_snprintf(g, sizeof g, fmts[fi], f); priv_end();
+      { char *t = g; while (*t == ' ' || *t == '+') t++; fn_out_str("text", t); fn_out_int("ret", ret - (int)(t - g)); } fn_end(); free(h); }
+    priv_begin(); mpf_clear(f); priv_end();
+  }
+}
